@@ -2,6 +2,9 @@ package c17
 
 import (
 	"fmt"
+	"math"
+	"math/big"
+	"math/bits"
 	"strconv"
 	"strings"
 	"unicode/utf16"
@@ -16,6 +19,10 @@ import (
 type jw struct {
 	b  strings.Builder
 	ch func(n int) int
+	// what the writer did (for the class histogram)
+	bigFloatSyntax bool // an integral value beyond 2^53 was written with a fraction or an exponent
+	bigAtLimit     bool // ... and its magnitude is 2^53, 2^63 or 2^64
+	longDigits     bool // a float was written with its exact (long) decimal expansion
 }
 
 var wsChoices = []string{"", "", "", "", " ", "\n", "\t", "\r", "\r\n", "  ", "\n\t ", " \n  "}
@@ -36,18 +43,15 @@ func (w *jw) value(v *gen.Tree) {
 	case "bool":
 		w.b.WriteString(strconv.FormatBool(v.B))
 	case "int":
-		neg, d := v.I < 0, strconv.FormatInt(v.I, 10)
+		neg, mag := v.I < 0, uint64(v.I)
 		if neg {
-			d = d[1:]
+			mag = -mag // also right for -2^63
 		}
-		// an integer beyond 2^53 keeps its integer spelling: as a fraction or
-		// with an exponent it would denote a float64 that cannot hold it
-		w.number(neg, d, 0, v.I < -(1<<53) || v.I > 1<<53)
+		w.integer(neg, mag)
 	case "uint":
-		w.number(false, strconv.FormatUint(v.U, 10), 0, v.U > 1<<53)
+		w.integer(false, v.U)
 	case "float":
-		neg, d, e := decimalOf(v.FloatVal())
-		w.number(neg, d, e, false)
+		w.float(v.FloatVal())
 	case "str":
 		w.str(v.S)
 	case "list":
@@ -81,6 +85,117 @@ func (w *jw) value(v *gen.Tree) {
 	default:
 		panic("bad tree kind " + v.K)
 	}
+}
+
+// floatExact: the integer mag is a float64 (its significant bits fit 53).
+func floatExact(mag uint64) bool {
+	return mag == 0 || bits.Len64(mag)-bits.TrailingZeros64(mag) <= 53
+}
+
+// integer writes an integer of [-2^63, 2^64). Up to 2^53 every spelling of
+// the number is free. Beyond 2^53 an integer that no float64 holds keeps its
+// integer spelling (with a fraction or an exponent the literal would be read
+// as the nearest float64, another number). One that IS a float64 (2^63, 2^64-2048,
+// 2^53+2, ...) may also be written in float syntax: with its exact digits in any
+// spelling (9223372036854775808.0, 92233720368547758.08e2; the literal denotes
+// the integer exactly, whichever way it is read), or with the shortest digits
+// that identify the float64, then necessarily with a fraction or an exponent
+// (9.223372036854776e18: the nearest float64 is the integer).
+func (w *jw) integer(neg bool, mag uint64) {
+	d := strconv.FormatUint(mag, 10)
+	if mag <= 1<<53 {
+		w.number(neg, d, 0, false)
+		return
+	}
+	if !floatExact(mag) {
+		w.number(neg, d, 0, true)
+		return
+	}
+	start := w.b.Len()
+	switch w.ch(4) {
+	case 0, 1:
+		w.number(neg, d, 0, true)
+	case 2:
+		e := 0
+		for len(d) > 1 && d[len(d)-1] == '0' {
+			d, e = d[:len(d)-1], e+1
+		}
+		w.number(neg, d, e, false)
+	default:
+		_, sd, e := decimalOf(float64(mag))
+		w.numberFloat(neg, sd, e)
+	}
+	if strings.ContainsAny(w.b.String()[start:], ".eE") {
+		w.bigFloatSyntax = true
+		if mag == 1<<63 || mag == 1<<53 {
+			w.bigAtLimit = true
+		}
+	}
+}
+
+var floatTails = []string{".0", "e0", "E0", ".00", "e+0", "E-0", ".0e0", ".000E+00"}
+
+// numberFloat is number, but the spelling always has a fraction or an exponent.
+func (w *jw) numberFloat(neg bool, d string, e int) {
+	start := w.b.Len()
+	w.number(neg, d, e, false)
+	if !strings.ContainsAny(w.b.String()[start:], ".eE") {
+		w.b.WriteString(floatTails[w.ch(len(floatTails))])
+	}
+}
+
+// exactDecimal returns the exact decimal expansion of the finite float f != 0 in
+// the form of decimalOf (every float64 is a finite decimal).
+func exactDecimal(f float64) (digits string, exp int) {
+	_, be := math.Frexp(f) // |f| = m * 2^be, m in [0.5,1): the lowest bit is worth 2^(be-53)
+	frac := 0
+	if be < 53 {
+		frac = 53 - be
+	}
+	s := new(big.Float).SetFloat64(math.Abs(f)).Text('f', frac)
+	if dot := strings.IndexByte(s, '.'); dot >= 0 {
+		exp = -(len(s) - dot - 1)
+		s = s[:dot] + s[dot+1:]
+	}
+	s = strings.TrimLeft(s, "0")
+	for len(s) > 1 && s[len(s)-1] == '0' {
+		s, exp = s[:len(s)-1], exp+1
+	}
+	return s, exp
+}
+
+// float writes a float64 value. The digits are the shortest decimal that
+// identifies it or (by choice, for moderate exponents) its exact decimal
+// expansion; both denote f for a correctly rounding reader. An integral value
+// of [2^53, 2^64) / [-2^63, -2^53] with the shortest digits needs float syntax
+// (as an integer literal those digits are another integer).
+func (w *jw) float(f float64) {
+	neg, d, e := decimalOf(f)
+	if f == math.Trunc(f) && math.Abs(f) >= 1<<53 {
+		start := w.b.Len()
+		inRange := (f > 0 && f < 1<<64) || (f < 0 && f >= -(1<<63))
+		switch {
+		case w.ch(2) == 1 && math.Abs(f) < 1e60:
+			d, e = exactDecimal(f)
+			w.number(neg, d, e, false)
+		case inRange:
+			w.numberFloat(neg, d, e)
+		default:
+			w.number(neg, d, e, false)
+		}
+		if strings.ContainsAny(w.b.String()[start:], ".eE") {
+			w.bigFloatSyntax = true
+			if math.Abs(f) == 1<<64 || math.Abs(f) == 1<<63 {
+				w.bigAtLimit = true
+			}
+		}
+		return
+	}
+	if _, be := math.Frexp(f); f != 0 && be > -70 && be < 200 && w.ch(6) == 5 {
+		d, e = exactDecimal(f)
+		w.longDigits = true
+	}
+	w.number(neg, d, e, false)
 }
 
 // decimalOf returns the shortest decimal that identifies f: f is the float64
